@@ -177,6 +177,41 @@ def bigmap_case(ctx: Ctx, stream: str, i: int) -> None:
     ctx.count('bigmap')
 
 
+def healpix_family_case(ctx: Ctx, stream: str, i: int) -> None:
+    """Several HEALPix landscapes used in the SAME process, chosen so that totals coincide across Stokes kinds and
+    resolutions (IQUV at nside n has as many values as I at nside 2n; frequency maps multiply the count again): each
+    must keep answering at its own resolution, in whichever order they are used."""
+    import healpy as hp
+    from furax.landscapes import HealpixLandscape
+    rng = ctx.rng(stream, i)
+    n = rng.choice([1, 2, 4])
+    dt = np.float64 if jax.config.jax_enable_x64 else np.float32
+    family = [('I', 2 * n, None), ('IQUV', n, None), ('QU', n, None), ('I', 4 * n, None), ('IQU', 2 * n, None),
+              ('I', n, None), ('IQUV', 2 * n, None)]
+    rng.shuffle(family)
+    th = np.arccos(np.array([rng.uniform(-0.95, 0.95) for _ in range(40)]))
+    ph = np.array([rng.uniform(0.05, 2 * np.pi - 0.05) for _ in range(40)])
+    for kind, nside, nfreq in family[:5]:
+        land = HealpixLandscape(nside, kind, dt)
+        # directions at pixel centres of THIS resolution: robust to the coordinate precision
+        ipix = hp.ang2pix(nside, th, ph)
+        tc, pc = hp.pix2ang(nside, ipix)
+        st, got = safe(land.world2index, jnp.asarray(tc.astype(dt)), jnp.asarray(pc.astype(dt)))
+        cfg = {'nside': nside, 'stokes': kind, 'frequencies': nfreq, 'family': [list(map(str, f)) for f in family[:5]]}
+        if st != 'ok':
+            ctx.fail(stream, i, f'world2index-raises:{st}', str(got)[:150], cfg)
+            continue
+        got = np.asarray(got)
+        got_pix = got if got.ndim == 1 else got[-1]
+        if got_pix.shape != ipix.shape or not np.array_equal(got_pix, ipix):
+            ctx.fail(stream, i, 'healpix-centres:among-other-landscapes',
+                     f'{type(land).__name__}(nside={nside}, {kind!r}) used after other landscapes: world2index differs from '
+                     f'healpy for {int((got_pix != ipix).sum()) if got_pix.shape == ipix.shape else "all"} of {len(ipix)} '
+                     f'pixel centres (max index {int(got_pix.max())}, map has {12 * nside * nside} pixels)', cfg)
+        ctx.count(f'family:{kind}:{nside}:{nfreq}')
+    ctx.case(f'family:{n}:{family}', True, sample={'family': [list(map(str, f)) for f in family[:5]]})
+
+
 def run(ctx: Ctx) -> None:
     q = ctx.tier == 'quick'
     for i in range(120 if q else 3000):
@@ -188,6 +223,9 @@ def run(ctx: Ctx) -> None:
     for i in range(16 if q else 200):
         if ctx.want('healpix', i):
             healpix_case(ctx, 'healpix', i, 8 if q else 64)
+    for i in range(16 if q else 200):
+        if ctx.want('family', i):
+            healpix_family_case(ctx, 'family', i)
     for i in range(2):
         if ctx.want('bigmap', i):
             bigmap_case(ctx, 'bigmap', i)
